@@ -675,3 +675,158 @@ Proof.
       * split; [|intros Hg; exfalso; lia]. intros _. repeat split; try lia.
       * split; [intros Hg; exfalso; lia|]. intros _ p. lia.
 Qed.
+
+(* ================= the list of specs ================= *)
+(* cs is, in order, one exact canonical range per spec that selects at least one byte *)
+Inductive canon_of (clen : Z) : list rspec -> list (Z * Z) -> Prop :=
+| co_nil : canon_of clen [] []
+| co_keep s r c cs :
+    0 <= fst c -> 0 < snd c -> fst c + snd c <= clen -> (forall p, in_canon c p <-> wants clen s p) ->
+    canon_of clen r cs -> canon_of clen (s :: r) (c :: cs)
+| co_drop s r cs : (forall p, ~ wants clen s p) -> canon_of clen r cs -> canon_of clen (s :: r) cs.
+
+Lemma canon_specs_spec clen specs : Forall valid_spec specs -> -1 <= clen <= int64_max ->
+  exists cs, canon_specs clen (map repr specs) = (cs, false) /\ canon_of clen specs cs.
+Proof.
+  intros Hv Hc. induction Hv as [|s r Hs Hr IH]; cbn [map canon_specs].
+  - exists []. split; [reflexivity|constructor].
+  - destruct IH as (cs & Ecs & Hcs). rewrite Ecs.
+    pose proof (spec_canonize_spec clen s Hs Hc) as H.
+    destruct (spec_canonize clen (repr s)) as [[c good] ub]. destruct H as (-> & Hg & Hb).
+    destruct good.
+    + destruct (Hg eq_refl) as (H1 & H2 & H3 & H4). exists (c :: cs). split; [reflexivity|]. now constructor.
+    + exists cs. split; [reflexivity|]. apply co_drop; [exact (Hb eq_refl)|exact Hcs].
+Qed.
+
+Lemma canon_of_within clen specs cs : canon_of clen specs cs ->
+  Forall (fun c => 0 <= fst c /\ 0 < snd c /\ fst c + snd c <= clen) cs.
+Proof. induction 1; [constructor|constructor; [repeat split; assumption|assumption]|assumption]. Qed.
+
+Lemma canon_of_union clen specs cs : canon_of clen specs cs ->
+  forall p, (exists c, In c cs /\ in_canon c p) <-> (exists s, In s specs /\ wants clen s p).
+Proof.
+  induction 1 as [|s r c cs H1 H2 H3 H4 Hr IH|s r cs Hn Hr IH]; intros p.
+  - split; intros (x & [] & _).
+  - split.
+    + intros (x & [<-|Hin] & Hp).
+      * exists s. split; [now left|now apply H4].
+      * destruct (proj1 (IH p) (ex_intro _ x (conj Hin Hp))) as (s' & Hs' & Hw). exists s'. split; [now right|exact Hw].
+    + intros (x & [<-|Hin] & Hp).
+      * exists c. split; [now left|now apply H4].
+      * destruct (proj2 (IH p) (ex_intro _ x (conj Hin Hp))) as (c' & Hc' & Hw). exists c'. split; [now right|exact Hw].
+  - split.
+    + intros Hx. destruct (proj1 (IH p) Hx) as (s' & Hs' & Hw). exists s'. split; [now right|exact Hw].
+    + intros (x & [<-|Hin] & Hp); [exfalso; exact (Hn p Hp)|]. apply IH. now exists x.
+Qed.
+
+Lemma all_some_Forall {A B} (f : A -> option B) l xs : all_some (map f l) = Some xs -> Forall2 (fun x y => f x = Some y) l xs.
+Proof.
+  revert xs. induction l as [|x l IH]; intros xs; cbn [map all_some].
+  - intros [= <-]. constructor.
+  - destruct (f x) as [y|] eqn:E; [|discriminate]. destruct (all_some (map f l)) as [ys|]; [|discriminate].
+    intros [= <-]. constructor; [exact E|now apply IH].
+Qed.
+
+Lemma header_specs_valid value specs : header_specs value = Some specs -> Forall valid_spec specs /\ specs <> [].
+Proof.
+  unfold header_specs. destruct (ci_eqb _ _); [|discriminate].
+  destruct (all_some _) as [[|x l]|] eqn:E; try discriminate. intros [= <-]. split; [|discriminate].
+  apply all_some_Forall in E. remember (x :: l) as xs. clear Heqxs. induction E as [|el s els ss Hs _ IH]; constructor; [|exact IH].
+  exact (spec_of_text_valid el s Hs).
+Qed.
+
+(* ================= the property ================= *)
+Theorem range_run_spec value clen : -1 <= clen <= int64_max ->
+  match header_specs value with
+  | None => range_run value clen = (None, false)
+  | Some specs =>
+      exists cs, range_run value clen = (Some (map repr specs, (match cs with [] => false | _ => true end, cs)), false) /\
+                 canon_of clen specs cs
+  end.
+Proof.
+  intros Hc. unfold range_run. rewrite range_parse_spec.
+  destruct (header_specs value) as [specs|] eqn:Eh; [|reflexivity].
+  destruct (header_specs_valid value specs Eh) as [Hv _].
+  destruct (canon_specs_spec clen specs Hv Hc) as (cs & Ecs & Hcs).
+  exists cs. split; [|exact Hcs]. unfold range_canonize. now rewrite Ecs.
+Qed.
+
+(* an invalid element anywhere in the list makes the header ignored *)
+Theorem invalid_spec_ignores_header value clen el :
+  ci_eqb (takeN 6 (c_str value)) bytes_eq = true ->
+  In el (elements (dropN 6 (c_str value))) -> spec_of_text el = None ->
+  range_run value clen = (None, false).
+Proof.
+  intros Hb Hin Hn. unfold range_run. rewrite range_parse_spec. unfold header_specs. rewrite Hb.
+  now rewrite (all_some_none spec_of_text _ el Hin Hn).
+Qed.
+
+Theorem range_no_overflow value clen : -1 <= clen <= int64_max -> snd (range_run value clen) = false.
+Proof.
+  intros Hc. pose proof (range_run_spec value clen Hc) as H.
+  destruct (header_specs value); [destruct H as (cs & -> & _)|rewrite H]; reflexivity.
+Qed.
+
+(* ================= what spec_of_text means, as a grammar ================= *)
+Lemma span_digits_dash d1 rest : forallb is_digit d1 = true ->
+  span (fun c => negb (c =? 45)%N) (d1 ++ 45%N :: rest) = (d1, 45%N :: rest).
+Proof.
+  induction d1 as [|x d1 IH]; intros H; cbn [app span]; [reflexivity|].
+  cbn [forallb] in H. apply andb_prop in H as [Hx Hd].
+  assert ((x =? 45)%N = false) as -> by (unfold is_digit in Hx; lia). cbn [negb]. now rewrite (IH Hd).
+Qed.
+
+Lemma spec_of_text_digits_led d1 rest a : pos_value d1 = Some a ->
+  spec_of_text (d1 ++ 45%N :: rest) =
+  match rest with
+  | [] => Some (RFrom a)
+  | _ => match pos_value rest with Some y => if y <? a then None else Some (RRange a y) | None => None end
+  end.
+Proof.
+  intros Ha. destruct (pos_value_range d1 a Ha) as (_ & Hd & _).
+  destruct d1 as [|c r]; [discriminate|].
+  assert (Hc : (c =? 45)%N = false).
+  { cbn [forallb] in Hd. apply andb_prop in Hd as [Hc _]. unfold is_digit in Hc. lia. }
+  unfold spec_of_text. cbn [app]. rewrite Hc.
+  change (c :: r ++ 45%N :: rest) with ((c :: r) ++ 45%N :: rest).
+  now rewrite (span_digits_dash (c :: r) rest Hd), Ha.
+Qed.
+
+Theorem spec_of_text_meaning el s :
+  spec_of_text el = Some s <->
+  (exists ds n, el = 45%N :: ds /\ pos_value ds = Some n /\ s = RSuffix n) \/
+  (exists d1 a, el = d1 ++ [45%N] /\ pos_value d1 = Some a /\ s = RFrom a) \/
+  (exists d1 d2 a b, el = d1 ++ 45%N :: d2 /\ pos_value d1 = Some a /\ pos_value d2 = Some b /\ a <= b /\ s = RRange a b).
+Proof.
+  split.
+  - unfold spec_of_text. destruct el as [|c r]; [discriminate|].
+    destruct (c =? 45)%N eqn:E45.
+    + apply N.eqb_eq in E45. subst c. destruct (pos_value r) as [n|] eqn:E; [|discriminate]. intros [= <-].
+      left. now exists r, n.
+    + pose proof (span_app (fun c0 => negb (c0 =? 45)%N) (c :: r)) as Happ.
+      pose proof (span_stop (fun c0 => negb (c0 =? 45)%N) (c :: r)) as Hstop.
+      destruct (span (fun c0 => negb (c0 =? 45)%N) (c :: r)) as [a rest]. cbn [fst snd] in *.
+      destruct rest as [|d b]; [discriminate|]. assert (d = 45%N) by lia. subst d.
+      destruct (pos_value a) as [x|] eqn:Ea; [|discriminate].
+      destruct b as [|e b'].
+      * intros [= <-]. right. left. exists a, x. now rewrite Happ.
+      * destruct (pos_value (e :: b')) as [y|] eqn:Eb; [|discriminate].
+        destruct (y <? x) eqn:Eyx; [discriminate|]. intros [= <-]. right. right.
+        exists a, (e :: b'), x, y. rewrite Happ. repeat split; try assumption; lia.
+  - intros [(ds & n & -> & Hn & ->)|[(d1 & a & -> & Ha & ->)|(d1 & d2 & a & b & -> & Ha & Hb & Hab & ->)]].
+    + unfold spec_of_text. now rewrite N.eqb_refl, Hn.
+    + now rewrite (spec_of_text_digits_led d1 [] a Ha).
+    + rewrite (spec_of_text_digits_led d1 d2 a Ha). destruct (pos_value_range d2 b Hb) as (_ & _ & Hne2).
+      destruct d2 as [|e d2']; [congruence|]. rewrite Hb. destruct (b <? a) eqn:E; [lia|reflexivity].
+Qed.
+
+Theorem pos_value_meaning ds v :
+  pos_value ds = Some v <-> ds <> [] /\ forallb is_digit ds = true /\ v = dec_value ds /\ v <= int64_max.
+Proof.
+  unfold pos_value. split.
+  - destruct ds as [|c r]; [discriminate|]. destruct (forallb is_digit (c :: r)); [|discriminate]. cbn [andb].
+    destruct (dec_value (c :: r) <=? int64_max) eqn:E; [|discriminate]. intros [= <-].
+    repeat split; try lia; discriminate.
+  - intros (Hne & Hd & -> & Hm). destruct ds as [|c r]; [congruence|]. rewrite Hd. cbn [andb].
+    destruct (dec_value (c :: r) <=? int64_max) eqn:E; [reflexivity|lia].
+Qed.
